@@ -1,0 +1,16 @@
+//go:build verif
+// +build verif
+
+package math
+
+import "math/big"
+
+// VerifDraw (build tag verif), when set, is shown every random draw and may overwrite it in place,
+// so that the conformance harness in /verif can force value-dependent corners deterministically.
+var VerifDraw func(name string, v *big.Int)
+
+func verifDraw(name string, v *big.Int) {
+	if f := VerifDraw; f != nil {
+		f(name, v)
+	}
+}
